@@ -302,10 +302,12 @@ def run(ctx):
     # large arrays (>= 65536 elements) with even lengths n whose n/2 is odd or even: any size-dependent code path is judged by the
     # closed form too (numpy reference only; not sent through Coq)
     big_cases = []
-    for shape in ([258, 258], [66, 1026], [130, 514], [256, 256], [2, 33000]):
-        for inv in (False, True):
-            big_cases.append(dict(inverse=inv, center=True, ortho=bool(len(big_cases) % 2), ish=shape, osh=None,
-                                  axes=None if len(big_cases) % 3 else [-1, -2], dtype="complex128"))
+    # (lengths n with n/2 odd and with n/2 even, so that the sum of the half-lengths over the transformed axes is odd for some and
+    #  even for others)
+    for shape, inv in (([258, 256], False), ([2, 33000], True), ([66, 1024], False), ([258, 258], True), ([130, 512], True), ([256, 256], False),
+                       ([130, 514], False), ([66, 1026], True)):
+        big_cases.append(dict(inverse=inv, center=True, ortho=bool(len(big_cases) % 2), ish=shape, osh=None,
+                              axes=None if len(big_cases) % 3 else [-1, -2], dtype="complex128"))
     n = max(ctx.n(360, 6000), len(cases) + 100)
     while len(cases) < n:
         cases.append(gen_case(rng, maxlen, maxsize))
